@@ -41,6 +41,11 @@ async def _start_slow(*a, **k):
     return 4243
 
 
+# the data keys Home Assistant's pipeline puts into voice-assistant events
+VA_DATA = {"continue_conversation": "1", "conversation_id": "cid-1", "text": "turn on the light", "url": "http://ha/tts.mp3", "tts_output": "1",
+           "code": "no-intent", "message": "sorry", "timer_finished": "1", "tts_start_streaming": "1"}
+
+
 def recipes() -> dict:
     from aioesphomeapi import model as M
 
@@ -90,7 +95,8 @@ def recipes() -> dict:
         "send_home_assistant_state": lambda c, v: c.send_home_assistant_state("sensor.x", "attr" if v % 2 else None, "on"),
         "send_voice_assistant_announcement_await_response": lambda c, v: c.send_voice_assistant_announcement_await_response("media", 2.0, "hi"),
         "send_voice_assistant_audio": lambda c, v: c.send_voice_assistant_audio(b"\x00\x01"),
-        "send_voice_assistant_event": lambda c, v: c.send_voice_assistant_event(M.VoiceAssistantEventType.VOICE_ASSISTANT_RUN_START, {"a": "b"} if v % 2 else None),
+        "send_voice_assistant_event": lambda c, v: [c.send_voice_assistant_event(et, ({"a": "b"}, None, VA_DATA, {"continue_conversation": "0"})[(v + i) % 4])
+                                                    for i, et in enumerate(M.VoiceAssistantEventType)][-1],
         "send_voice_assistant_timer_event": lambda c, v: c.send_voice_assistant_timer_event(M.VoiceAssistantTimerEventType.VOICE_ASSISTANT_TIMER_STARTED, "t1", "n" if v % 2 else None, 10, 5, True),
         "set_voice_assistant_configuration": lambda c, v: c.set_voice_assistant_configuration(["okay nabu"]),
         "siren_command": lambda c, v: c.siren_command(1, state=True, tone="t", volume=0.5, duration=3),
